@@ -1,3 +1,6 @@
-From Goml Require Import Common.Base Sem.GoAst C02.GoCheck C02.Properties.
+From Goml Require Import Common.Base Sem.GoAst C02.GoCheck C02.Closed C02.Properties.
 Check (accepted_files_declare_top_level_names_once : forall f, go_wf f = [] -> NoDup (top_names f)).
 Print Assumptions accepted_files_declare_top_level_names_once.
+Check (accepted_expressions_mention_declared_names_only :
+  forall g fuel sc e, snd (synth g fuel sc e) = [] -> Forall (declared g sc) (reads_e fuel e)).
+Print Assumptions accepted_expressions_mention_declared_names_only.
